@@ -18,6 +18,7 @@ package serve
 // The model's predicted outcome is compared for drift only.
 
 import (
+	"sync"
 	"sync/atomic"
 	"bytes"
 	"context"
@@ -61,6 +62,9 @@ type absPkt struct {
 	Pad       bool   `json:"pad"`
 	Unk       bool   `json:"unk"`
 	Proto     string `json:"proto"`
+	// Name: "" / "own" = the behaviour's question; "sib" = a sibling below the same parent, whose upstream answer is a
+	// validated NXDOMAIN of that PARENT (ladder family: the RFC 8020 cut then covers the own name as well)
+	Name string `json:"name"`
 }
 
 type absCfg struct {
@@ -82,6 +86,12 @@ type step struct {
 	Content string `json:"content"`
 	Exp     absOut `json:"exp"`
 	ExpTail bool   `json:"expTail"`
+	// Env: an environment step of the model instead of a query (ladder family): "elapse" = every failure back-off runs
+	// out (the virtual clock of each twin's failure cache jumps), "recover" = the failing upstream answers again
+	Env string `json:"env"`
+	// Cls: what the MODEL says this query meets (ladder family), confirmed on the decoded twin and counted, so the
+	// check can tell a run in which the history never produced the state (vacuous) from one in which it held
+	Cls []string `json:"cls"`
 }
 
 type behaviour struct {
@@ -98,7 +108,32 @@ type input struct {
 	// loopback sockets (relay_test.go), so what an upstream can put on the wire reaches the cache and the
 	// edns writer the way it does in production (dnsclient decode, forwarder relay of the additional section)
 	Upstream string `json:"upstream"`
+	// Family "ladder": names are laid out as <content>-<n>.g<n>.verif.test. (own) and cutnx-<n>.g<n>.verif.test.
+	// (sibling), and every twin's failure cache runs on a frozen virtual clock (overlay shim verif_c05_shim.go)
+	Family string `json:"family"`
 }
+
+// vclock is the frozen clock of one twin's RFC 9520 failure cache: time passes only in "elapse" steps, so the three
+// twins (served one after the other) can never see a back-off boundary fall between them.
+type vclock struct {
+	mu sync.Mutex
+	t  time.Time
+}
+
+func (c *vclock) Now() time.Time {
+	c.mu.Lock()
+	defer c.mu.Unlock()
+	return c.t
+}
+
+func (c *vclock) Advance(d time.Duration) {
+	c.mu.Lock()
+	c.t = c.t.Add(d)
+	c.mu.Unlock()
+}
+
+// recovered: own names whose failing upstream answers again (model action Recover)
+var recovered sync.Map
 
 const cookieSecret = "6c6f6f6b61686172646c6f6f6b6168617264"
 const nsidString = "verif-nsid"
@@ -111,10 +146,11 @@ type upstreamLog interface {
 }
 
 type twin struct {
-	name string
-	srv  *server.Server
-	tail *pipe.Tail  // the scripted tail (nil when the real forwarder plays toward a socket upstream)
-	up   upstreamLog // that socket upstream
+	name  string
+	srv   *server.Server
+	tail  *pipe.Tail  // the scripted tail (nil when the real forwarder plays toward a socket upstream)
+	up    upstreamLog // that socket upstream
+	clock *vclock     // nil unless the ladder family installed one
 }
 
 func (t *twin) log() upstreamLog {
@@ -210,7 +246,7 @@ func fakeSig(name string, covered uint16) dns.RR {
 	}
 }
 
-func respond(_ context.Context, _ *middleware.Chain, req *dns.Msg) *dns.Msg {
+func respond(ctx context.Context, _ *middleware.Chain, req *dns.Msg) *dns.Msg {
 	q := req.Question[0]
 	resp := new(dns.Msg)
 	resp.SetReply(req)
@@ -219,9 +255,39 @@ func respond(_ context.Context, _ *middleware.Chain, req *dns.Msg) *dns.Msg {
 	a := func(owner string, b byte) dns.RR {
 		return &dns.A{Hdr: dns.RR_Header{Name: owner, Rrtype: dns.TypeA, Class: dns.ClassINET, Ttl: 300}, A: net.IPv4(192, 0, 2, b)}
 	}
-	switch contentOf(name) {
+	content := contentOf(name)
+	if _, ok := recovered.Load(strings.ToLower(name)); ok && content == "servfail" {
+		content = "pos"
+	}
+	switch content {
 	case "pos":
 		resp.Answer = []dns.RR{a(name, 1)}
+	case "mid":
+		// fits 1232 bytes, does not fit 512: truncated only toward a client without EDNS
+		for i := 0; i < 40; i++ {
+			resp.Answer = append(resp.Answer, a(name, byte(i)))
+		}
+	case "cutnx":
+		// <label>.gNNNNN.verif.test.: the validator proved the PARENT gNNNNN.verif.test. nonexistent (NSEC range private to
+		// that subtree) and says so through the resolver-to-cache seam; an unscoped CD=0 request makes the cache publish
+		// the RFC 8020 cut of the parent
+		labels := dns.SplitDomainName(strings.ToLower(name))
+		if len(labels) < 4 || len(labels[1]) < 2 {
+			resp.Rcode = dns.RcodeNameError
+			resp.Ns = []dns.RR{soa("verif.test.")}
+			break
+		}
+		parent := labels[1]
+		var n int
+		fmt.Sscanf(parent[1:], "%d", &n)
+		owner := fmt.Sprintf("g%05d~.verif.test.", n-1)
+		resp.Rcode = dns.RcodeNameError
+		resp.AuthenticatedData = true
+		nsec := &dns.NSEC{Hdr: dns.RR_Header{Name: owner, Rrtype: dns.TypeNSEC, Class: dns.ClassINET, Ttl: 120},
+			NextDomain: parent + "!.verif.test.", TypeBitMap: []uint16{dns.TypeA, dns.TypeRRSIG, dns.TypeNSEC}}
+		resp.Ns = []dns.RR{soa("verif.test."), fakeSig("verif.test.", dns.TypeSOA), nsec, fakeSig(owner, dns.TypeNSEC)}
+		middleware.MarkValidatedNegativeProofResponse(ctx, resp, middleware.ValidatedNegativeProof{
+			Subject: parent + ".verif.test.", Zone: "verif.test.", Kind: middleware.ValidatedNegativeProofNSEC, Aggressive: true})
 	case "signed":
 		resp.Answer = []dns.RR{a(name, 2), fakeSig(name, dns.TypeA)}
 		resp.AuthenticatedData = true
@@ -314,9 +380,10 @@ func respond(_ context.Context, _ *middleware.Chain, req *dns.Msg) *dns.Msg {
 	return resp
 }
 
-func newTwins(c absCfg, upstream string) (*twins, func()) {
+func newTwins(c absCfg, upstream string, withClock bool) (*twins, func()) {
 	tw := &twins{cfg: c}
 	var rel []func()
+	epoch := time.Now()
 	mk := func(name string) *twin {
 		if upstream == "forwarder" {
 			t, stop := newForwarderTwin(name, c)
@@ -327,6 +394,13 @@ func newTwins(c absCfg, upstream string) (*twins, func()) {
 		t := &twin{name: name, tail: tail}
 		s, release := pipe.NewServer(realConfig(c), tail, "failover")
 		t.srv = s
+		if withClock {
+			// the cache handler of THIS twin is the one just set up in the (process-global) registry
+			if h, ok := middleware.Get("cache").(interface{ VerifC05SetFailureNow(func() time.Time) }); ok {
+				t.clock = &vclock{t: epoch}
+				h.VerifC05SetFailureNow(t.clock.Now)
+			}
+		}
 		// the registry is process-global; the Server keeps its own pipeline,
 		// so releasing right away lets the next twin be built
 		release()
@@ -870,6 +944,7 @@ func TestServeReplay(t *testing.T) {
 	}
 	byCfg := map[absCfg]*twins{}
 	serial := 0
+	ladder := in.Family == "ladder"
 	report := func(prop, clause, what string, b behaviour, si int, q built, extra map[string]any) {
 		if in.Focus != "" && in.Focus != prop {
 			res.Count("other_property_"+prop+"_"+clause, 1)
@@ -890,9 +965,13 @@ func TestServeReplay(t *testing.T) {
 		tw := byCfg[b.Cfg]
 		if tw == nil {
 			var rel func()
-			tw, rel = newTwins(b.Cfg, in.Upstream)
+			tw, rel = newTwins(b.Cfg, in.Upstream, ladder)
 			defer rel()
 			byCfg[b.Cfg] = tw
+			if ladder && (tw.w.clock == nil || tw.m.clock == nil || tw.i.clock == nil) {
+				res.Skip("ladder family: the failure-cache clock shim (verif_c05_shim.go) is not injected")
+				return
+			}
 		}
 		for v := 0; v < in.Variants; v++ {
 			serial++
@@ -900,6 +979,10 @@ func TestServeReplay(t *testing.T) {
 			ccookie := make([]byte, 8)
 			r.Read(ccookie)
 			nameFor := func(content string) string {
+				if ladder {
+					// own name and sibling share the parent g<n>.verif.test., private to this run of the behaviour
+					return fmt.Sprintf("%s-%d.g%05d.verif.test.", content, serial, serial)
+				}
 				switch content {
 				case "hosts":
 					return "hosts-entry.verif.test."
@@ -908,8 +991,27 @@ func TestServeReplay(t *testing.T) {
 				}
 				return fmt.Sprintf("%s-%d.verif.test.", content, serial)
 			}
+			own := nameFor(b.Steps[0].Content)
 			for si, st := range b.Steps {
-				name := nameFor(b.Steps[0].Content) // one question per behaviour
+				if st.Env != "" {
+					switch st.Env {
+					case "elapse":
+						// longer than the longest back-off the failure cache grants (5 min): every running one lapses
+						for _, tt := range []*twin{tw.w, tw.m, tw.i} {
+							if tt.clock != nil {
+								tt.clock.Advance(6 * time.Minute)
+							}
+						}
+					case "recover":
+						recovered.Store(strings.ToLower(own), true)
+					}
+					res.Count("env_"+st.Env, 1)
+					continue
+				}
+				name := own // one question per behaviour ...
+				if st.Pkt.Name == "sib" {
+					name = nameFor("cutnx") // ... and, in the ladder family, its sibling
+				}
 				q := buildPacket(st.Pkt, name, ip, rand.New(rand.NewSource(int64(serial)*131+int64(si))), v, ccookie)
 				acc := server.VerifAcceptHeader(q.raw)
 				res.Case(fmt.Sprintf("%v|%+v|%s|%d", b.Cfg, st.Pkt, st.Content, si))
@@ -937,6 +1039,9 @@ func TestServeReplay(t *testing.T) {
 				oi := tw.i.serve("inline", st.Pkt, q.raw, ip)
 				if ow.wirePath {
 					res.Count("wire_path_taken", 1)
+				}
+				if len(st.Cls) > 0 {
+					confirmClasses(res, st, om)
 				}
 				// ---- C06 on every reply of every twin
 				for _, o := range []struct {
@@ -1047,9 +1152,39 @@ func TestServeReplay(t *testing.T) {
 	}
 }
 
+// confirmClasses: the model says this query meets a given ladder situation; the DECODED twin's observation tells
+// whether the real history produced it (counted; a miss is drift, and the check treats zero confirmations as vacuous).
+func confirmClasses(res *vh.Result, st step, om obs) {
+	var m *dns.Msg
+	if len(om.replies) == 1 {
+		_, m, _ = canonMsg(om.replies[0])
+	}
+	for _, c := range st.Cls {
+		ok := false
+		if m != nil {
+			switch c {
+			case "hit-truncated-under-cut": // the cached answer, truncated, although a cut covers the name
+				ok = m.Rcode == dns.RcodeSuccess && m.Truncated && om.tail == 0
+			case "lapsed-failure-asked": // the back-off ran out: resolved again
+				ok = om.tail > 0
+			case "cut-over-live-failure", "cut-served":
+				ok = m.Rcode == dns.RcodeNameError && om.tail == 0
+			case "failure-served":
+				ok = m.Rcode == dns.RcodeServerFailure && om.tail == 0
+			}
+		}
+		if ok {
+			res.Count("confirmed_"+c, 1)
+		} else {
+			res.Count("unconfirmed_"+c, 1)
+			res.DriftNote("ladder class %s not produced by the decoded twin (pkt %+v, tail=%d, replies=%d)", c, st.Pkt, om.tail, len(om.replies))
+		}
+	}
+}
+
 func caseKey(b behaviour, si int) string {
 	p := b.Steps[si].Pkt
-	return fmt.Sprintf("cfg=%v/%v/%s pkt=%v/%d/%d/%d/%v/%v/%v/%s/%s/%s/%v/%d/%s/%v/%v/%s/%v/%v/%s content=%s step=%d",
+	return fmt.Sprintf("cfg=%v/%v/%s pkt=%v/%d/%d/%d/%v/%v/%v/%s/%s/%s/%v/%d/%s/%v/%v/%s/%v/%v/%s%s content=%s step=%d",
 		b.Cfg.NSID, b.Cfg.Ratelimit, b.Cfg.ECS, p.QR, p.Opcode, p.QD, p.AN, p.RD, p.AD, p.CD, p.Qtype, p.Qclass, p.Opt, p.DO, p.Size,
-		p.Cookie, p.NSID, p.Keepalive, p.ECS, p.Pad, p.Unk, p.Proto, b.Steps[0].Content, si)
+		p.Cookie, p.NSID, p.Keepalive, p.ECS, p.Pad, p.Unk, p.Proto, map[bool]string{true: "/sib"}[p.Name == "sib"], b.Steps[0].Content, si)
 }
